@@ -21,6 +21,12 @@ theorem rr_fair (counts : List Int) (hn : 0 < counts.length) (k : Nat) (hk : k *
     (Proofs.LB.rrRun ⟨counts, 0⟩ (k * counts.length)).count j = k :=
   Proofs.LB.rr_fair counts hn k hk j hj
 
+/-- any window of `N` consecutive round-robin choices, from any counter value that does not wrap
+    inside the window, hands exactly one connection to each of the `N` loops -/
+theorem rr_window (lb : LB) (hn : 0 < lb.size) (hw : lb.nextIndex.toNat + lb.size ≤ 2 ^ 64)
+    (j : Nat) (hj : j < lb.size) : (Proofs.LB.rrRun lb lb.size).count j = 1 :=
+  Proofs.LB.rr_window lb hn hw j hj
+
 /-- least connections returns a registered loop whose count is minimal (the first such loop) -/
 theorem lc_minimal (lb : LB) (hn : 0 < lb.size) :
     ∃ i, lb.lcNext = some i ∧ i < lb.size ∧
@@ -53,6 +59,7 @@ theorem rr_in_range (lb : LB) (hn : 0 < lb.size) : ∃ i lb', lb.rrNext = some (
 -- non-vacuity
 example : Proofs.LB.rrRun ⟨[0, 0, 0], 0⟩ 7 = [0, 1, 2, 0, 1, 2, 0] := by decide
 example : (⟨[3, 1, 2, 1], 0⟩ : LB).lcNext = some 1 := by decide
+example : Proofs.LB.rrRun ⟨[0, 0, 0], 5⟩ 3 = [2, 0, 1] := by decide
 example : (Proofs.LB.opened ⟨[2, 1, 2, 1], 0⟩ 1).counts = [2, 2, 2, 1] := by decide
 example : Proofs.LB.Balanced ⟨[2, 1, 2, 1], 0⟩ := by
   intro j k hj hk
